@@ -16,6 +16,8 @@
 -/
 import Golib.HLL.Card
 import Golib.HLL.Serial
+import Golib.HLL.EstSpec
+import Golib.HLL.Abstract
 
 namespace C14
 open HLL Prim
@@ -273,6 +275,127 @@ theorem finding_D30 :
   · intro α F
     rw [cardBranch_no_empty F 4 _ hz, hs]
 
+/-! ### deepening: sizes for arbitrary counts -/
+
+/-- exactly for which register counts `getSizeForCount` allocates enough words: all counts
+    except those with `count/6` a non-zero multiple of 32 and `count % 6 ≠ 0` (e.g. 193), where
+    `count % 6` registers have no word -/
+theorem sizes_exact (c : Nat) :
+    (c ≤ 6 * wordCount c ↔ (c / 6 = 0 ∨ c / 6 % 32 ≠ 0 ∨ c % 6 = 0)) ∧
+    (c / 6 ≠ 0 → c / 6 % 32 = 0 → 6 * wordCount c + c % 6 = c) :=
+  ⟨wordCount_suffices_iff c, wordCount_shortfall c⟩
+
+/-- every power of two (every precision, not only 4..16) is allocated enough words -/
+theorem sizes_ok_every_precision (p : Nat) : 2 ^ p ≤ 6 * wordCount (2 ^ p) := wordCount_two_pow p
+
+/-! ### deepening: the byte level (commuting square) -/
+
+/-- `GetBytes()` of any reachable counter is the packing of its registers, the packing is
+    injective on the registers `0 … 2^p − 1`, and it depends on nothing else -/
+theorem bytes_of_state (p : Nat) (hp : PrecOK p) :
+    (∀ ws, Reach p ws → getBytes p ws = bytesOfRegs p (regGet ws)) ∧
+    (∀ f g : Nat → Nat, (∀ r, f r < 32) → (∀ r, g r < 32) →
+      (bytesOfRegs p f = bytesOfRegs p g ↔ ∀ r, r < 2 ^ p → f r = g r)) :=
+  ⟨fun ws hr => getBytes_eq_bytesOfRegs p ws hr, fun f g hf hg => bytesOfRegs_eq_iff p f g hp hf hg⟩
+
+/-- reachable = fresh, closed under offers and merges -/
+theorem reach_closed (p : Nat) (hp : PrecOK p) :
+    Reach p (fresh p) ∧
+    (∀ ws h, Reach p ws → Hashed h → Reach p (offerHashed p ws h).1) ∧
+    (∀ a b, Reach p a → Reach p b → Reach p (merge a b)) :=
+  ⟨fresh_reach p, fun ws h hr hh => offerHashed_reach p ws h hp hr hh, fun a b => merge_reach p a b⟩
+
+/-- **the commuting square**: bytes after `Offer` = bytes of the abstractly updated registers;
+    bytes of a merge = bytes of the register-wise maximum; bytes after offering `hs` to a fresh
+    counter = bytes of the pointwise suprema -/
+theorem bytes_commute (p : Nat) (hp : PrecOK p) :
+    (∀ ws h, Reach p ws → Hashed h →
+      getBytes p (offerHashed p ws h).1 = bytesOfRegs p (absOffer p (regGet ws) h)) ∧
+    (∀ a b, Reach p a → Reach p b →
+      getBytes p (merge a b) = bytesOfRegs p (fun r => max (regGet a r) (regGet b r))) ∧
+    (∀ hs, (∀ h ∈ hs, Hashed h) → getBytes p (stateOf p hs) = bytesOfRegs p (supRank p hs)) :=
+  ⟨fun ws h hr hh => getBytes_offerHashed p ws h hp hr hh, fun a b => getBytes_merge p a b,
+   fun hs hh => getBytes_stateOf p hs hp hh⟩
+
+/-- `Offer` is commutative and idempotent **at the byte level**, for every precision 4..16 and
+    every reachable counter -/
+theorem bytes_offer_comm_idem {α : Type} (hash : α → Nat) (hH : ∀ x, Hashed (hash x)) (p : Nat)
+    (h1 : 4 ≤ p) (h2 : p ≤ 16) (ws : Array Nat) (hr : Reach p ws) (x y : α) :
+    getBytes p (offer hash p (offer hash p ws x).1 y).1 =
+      getBytes p (offer hash p (offer hash p ws y).1 x).1 ∧
+    getBytes p (offer hash p (offer hash p ws x).1 x).1 = getBytes p (offer hash p ws x).1 := by
+  have hp := PrecOK.of_range h1 h2
+  have rx := offerHashed_reach p ws (hash x) hp hr (hH x)
+  have ry := offerHashed_reach p ws (hash y) hp hr (hH y)
+  unfold offer
+  constructor
+  · rw [getBytes_offerHashed p _ (hash y) hp rx (hH y), getBytes_offerHashed p _ (hash x) hp ry (hH x)]
+    apply bytesOfRegs_congr
+    intro r _
+    have e1 : ∀ r, regGet (offerHashed p ws (hash x)).1 r = absOffer p (regGet ws) (hash x) r := by
+      intro r; rw [regGet_offerHashed p ws (hash x) r hp hr.wf (hH x)]; unfold absOffer
+      split
+      · rename_i e; subst e; rfl
+      · rfl
+    have e2 : ∀ r, regGet (offerHashed p ws (hash y)).1 r = absOffer p (regGet ws) (hash y) r := by
+      intro r; rw [regGet_offerHashed p ws (hash y) r hp hr.wf (hH y)]; unfold absOffer
+      split
+      · rename_i e; subst e; rfl
+      · rfl
+    have := congrFun (absOffer_comm p (regGet ws) (hash x) (hash y)) r
+    unfold absOffer at this ⊢
+    rw [e1, e2]
+    unfold absOffer
+    exact this
+  · rw [getBytes_offerHashed p _ (hash x) hp rx (hH x), getBytes_eq_bytesOfRegs p _ rx]
+    apply bytesOfRegs_congr
+    intro r _
+    unfold absOffer
+    split
+    · rename_i e
+      rw [← e, regGet_offerHashed p ws (hash x) _ hp hr.wf (hH x), if_pos rfl]
+      omega
+    · rfl
+
+/-! ### deepening: exact (rational) specification of the estimate -/
+
+/-- which branch is taken, as a function of (raw estimate, V), for any instantiation of the
+    formulas: linear counting iff the raw estimate is small **and** some register is empty -/
+theorem branch_function {α : Type} (F : Est α) (p : Nat) (rs : List Nat) :
+    (F.small (F.raw p (regSum rs)) (2 ^ p) = true ∧ zeros rs ≠ 0 ∧
+      cardBranch F p rs = .linear (2 ^ p) (zeros rs)) ∨
+    ((F.small (F.raw p (regSum rs)) (2 ^ p) = false ∨ zeros rs = 0) ∧
+      cardBranch F p rs = .raw (F.raw p (regSum rs))) :=
+  cardBranch_cases F p rs
+
+/-- the raw estimate `alpha·m²/Σ2^(−M[j])` over the rationals is monotone in every register
+    (and so is its rounding); raising registers never adds empty registers -/
+theorem raw_monotone_in_registers (p : Nat) (a b : List Nat) (h : RegsLe a b) (hb : b ≠ []) :
+    rawQ p (regSum a) ≤ rawQ p (regSum b) ∧ roundQ (rawQ p (regSum a)) ≤ roundQ (rawQ p (regSum b)) ∧
+    zeros b ≤ zeros a :=
+  rawQ_monotone_regs p a b h hb
+
+/-- adding an item never decreases the raw estimate and never adds an empty register -/
+theorem raw_monotone_under_offer (p : Nat) (ws : Array Nat) (h : Nat) (hp : PrecOK p)
+    (hw : WFState p ws) (hh : Hashed h) :
+    rawQ p (regSum (regs p ws)) ≤ rawQ p (regSum (regs p (offerHashed p ws h).1)) ∧
+    zeros (regs p (offerHashed p ws h).1) ≤ zeros (regs p ws) :=
+  rawQ_offer_monotone p ws h hp hw hh
+
+/-- **0 items ⇒ 0** (any `ln` with `ln 1 = 0`), and **V = 0 ⇒ the raw estimate** (fix-D30) -/
+theorem estimate_small_sets (ln : Rat → Rat) (hln : ln 1 = 0) (p : Nat) :
+    cardinality (specEst ln) p (fresh p) = 0 ∧
+    (∀ ws, zeros (regs p ws) = 0 →
+      cardinality (specEst ln) p ws = roundQ (rawQ p (regSum (regs p ws)))) :=
+  ⟨(cardinality_fresh ln hln p).2, fun ws h => cardinality_no_empty ln p ws h⟩
+
+/-- D30 under the exact specification, without any assumption on the comparison: on the witness
+    state the unchanged code evaluates `ln(16/0)`; the fixed code answers 22 for 16 items -/
+theorem finding_D30_exact (ln : Rat → Rat) :
+    cardBranchOrig (specEst ln) 4 (regs 4 (stateOf 4 d30Hashes)) = .linear 16 0 ∧
+    cardinality (specEst ln) 4 (stateOf 4 d30Hashes) = 22 :=
+  d30_exact ln
+
 /-! ### non-vacuity -/
 
 example : PrecOK 4 ∧ PrecOK 10 ∧ PrecOK 16 := ⟨⟨by decide, by decide⟩, ⟨by decide, by decide⟩, ⟨by decide, by decide⟩⟩
@@ -296,5 +419,17 @@ example : supRank 4 d30Hashes 7 = 1 := by decide
 example : cardBranch (α := Nat) ⟨fun _ s => s, fun _ _ => true, fun m v => m + v, id⟩ 4 [1, 1, 0] = .linear 16 1 := by decide
 example : cardBranch (α := Nat) ⟨fun _ s => s, fun _ _ => true, fun m v => m + v, id⟩ 4 [1, 1, 2] ≠
     cardBranchOrig ⟨fun _ s => s, fun _ _ => true, fun m v => m + v, id⟩ 4 [1, 1, 2] := by decide
+
+-- deepening examples
+example : ¬ (193 ≤ 6 * wordCount 193) ∧ 6 * wordCount 193 + 1 = 193 := by decide
+example : 192 ≤ 6 * wordCount 192 ∧ 1000 ≤ 6 * wordCount 1000 := by decide
+example : Reach 10 (stateOf 10 [123456789, 4294967295, 0]) :=
+  offerAll_reach 10 _ _ ⟨by decide, by decide⟩ (fresh_reach 10)
+    (by show ∀ h ∈ [123456789, 4294967295, 0], h < 4294967296; decide)
+example : RegsLe [0, 3, 5] [1, 3, 9] := by simp [RegsLe]
+example : rawQ 4 (8 * 2147483648) = 2692 / 125 ∧ roundQ (rawQ 4 (8 * 2147483648)) = 22 := by decide +kernel
+example : alphaQ 4 = 673 / 1000 ∧ alphaQ 10 = 7213 / 10000 / (1 + 1079 / 1000 / 1024) := by decide +kernel
+example : bytesOfRegs 4 (fun r => if r = 3 then 7 else 0) =
+    [0, 0, 0, 4, 0, 0, 0, 3, 0, 3, 128, 0, 0, 0, 0, 0, 0, 0, 0, 0] := by decide +kernel
 
 end C14
